@@ -89,6 +89,16 @@ func c09Configs() map[string]map[string]string {
 		".env":         "A={{.B}}-a\nB=b\nC={{.A}}-c\n",
 		".env2":        "B=second\nD={{.C}}-d\n",
 	}
+	// two parents include the same middle file in mapping form with different vars, and the middle
+	// file includes a leaf in mapping form: the leaf's tasks exist once per branch, each with its
+	// own branch's vars, whatever the order in which the parents are merged
+	m["diamond-mapping-vars-over-nested-mapping-include"] = map[string]string{
+		"Taskfile.yml": "version: '3'\nincludes:\n  l: ./l.yml\n  r: ./r.yml\n",
+		"l.yml":        "version: '3'\nincludes:\n  mid:\n    taskfile: ./mid.yml\n    vars: {G: from-l}\n",
+		"r.yml":        "version: '3'\nincludes:\n  mid:\n    taskfile: ./mid.yml\n    vars: {G: from-r}\n",
+		"mid.yml":      "version: '3'\nincludes:\n  leaf:\n    taskfile: ./leaf.yml\n",
+		"leaf.yml":     "version: '3'\ntasks:\n  leaf:\n    cmds:\n      - echo leaf G={{.G}}\n",
+	}
 	m["nested-siblings"] = map[string]string{
 		"Taskfile.yml": tf("", "  mid: ./mid.yml\n", "show"),
 		"mid.yml":      tf("  G: mid\n", "  x: ./x.yml\n  y: ./y.yml\n", "t"),
